@@ -796,6 +796,12 @@ def webhookToLinkedcaFields : List (String × String) :=
    ("DisableTlsClientAuth", "pwh.DisableTLSClientAuth"),
    ("CertType", "linkedca.Webhook_CertType(linkedca.Webhook_CertType_value[pwh.CertType])")]
 
+/-- the shape of the two option converters `provisionerOptionsToLinkedca` / `optionsToCertificates`:
+    the only path on which nothing is converted is `p == nil`; every webhook of `p.Webhooks` goes
+    through the webhook conversion -/
+def optionsToLinkedcaShape : String := "ret:p==nil;loop:p.Webhooks->provisionerWebhookToLinkedca"
+def optionsToCertificatesShape : String := "loop:p.Webhooks->webhookToCertificates"
+
 def webhookToCertificatesFields : List (String × String) :=
   [("ID", "wh.Id"), ("Name", "wh.Name"), ("URL", "wh.Url"), ("Kind", "wh.Kind.String()"), ("Secret", "wh.Secret"),
    ("DisableTLSClientAuth", "wh.DisableTlsClientAuth"), ("CertType", "wh.CertType.String()")]
